@@ -12,8 +12,10 @@ from .common import MachineryError, NCPU
 _MARK = re.compile(r'^<<\s*"(?:ACC|REJ|DRIFT)"', re.M)
 
 
-def validate(ctx, module, cfg, traces, *, timeout=900, tag=''):
-    """-> ({id: None | (index, why)}, {id: drift text})"""
+def validate(ctx, module, cfg, traces, *, timeout=900, tag='', all_rej=None):
+    """-> ({id: None | (index, why[, detail])}, {id: drift text}).  A trace spec may reject several events
+    of one trace (it then prints no ACC): the first rejection is the verdict, all of them are appended to
+    all_rej[id] when a dict is passed."""
     if not traces:
         return {}, {}
     n = len(traces)
@@ -39,7 +41,11 @@ def validate(ctx, module, cfg, traces, *, timeout=900, tag=''):
             if v[0] == 'ACC':
                 out[v[1]] = None
             elif v[0] == 'REJ':
-                out.setdefault(v[1], tuple(v[2:]) if len(v) > 3 else (v[2], '?'))
+                rej = tuple(v[2:]) if len(v) > 3 else (v[2], '?')
+                if out.get(v[1]) is None or rej[0] < out[v[1]][0]:
+                    out[v[1]] = rej
+                if all_rej is not None:
+                    all_rej.setdefault(v[1], []).append(rej)
             else:
                 drift[v[1]] = v[2]
         if not r.ok:
